@@ -19,4 +19,17 @@ for p in $props; do
   res="$res {\"check\":\"$p\",\"exit\":$rc,\"first\":\"$(echo $first | sed 's/"/\\"/g')\"}"
 done
 cd /; git -C /repo worktree remove --force $wt
+if [ "$d0" = "0" ] && [ "$d1" != "0" ] && echo "$tests" | grep -q "1400 passed"; then
+  out=/verif/seeded/${id}_$n; mkdir -p $out
+  cp $dir/seed$n.diff $out/patch.diff; cp $dir/demo$n.py $out/demo.py
+  needs=$(cat $dir/needs$n.txt 2>/dev/null | python3 -c "import sys,json; print(json.dumps(sys.stdin.read().strip()))")
+  [ -z "$needs" ] && needs='""'
+  cat > $out/meta.json <<META
+{"property": "$id",
+ "needs_to_manifest": $needs,
+ "confirmed": {"demo_on_pristine_exit": $d0, "demo_with_patch_exit": $d1, "test_suite_with_patch": "$tests"},
+ "ran": ["git -C /repo worktree add --detach <scratch> HEAD", "PYTHONPATH=<scratch> /venv/bin/python demo.py   (pristine, then after git apply patch.diff)", "/venv/bin/python -m pytest -q -p no:cacheprovider -n 8 --timeout=900   (with patch)", "PPCI_REPO=<scratch> /verif/checks/run <check> --tier quick", "git -C /repo worktree remove --force <scratch>"],
+ "checks": [$(echo $res | sed 's/} {/},{/g')]}
+META
+fi
 echo "{\"id\":\"$id\",\"seed\":$n,\"demo_pristine\":$d0,\"demo_patched\":$d1,\"tests\":\"$tests\",\"checks\":[$(echo $res | sed 's/} {/},{/g')]}"
